@@ -26,7 +26,7 @@ MUTATIONS = {
     ],
     'C02': [
         ('decode', 'tonic/src/codec/decode.rs', r'Some\(Err\(e\)\) => Err\(e\),\s*None => Ok\(None\),', 'Some(Err(_)) => Ok(None),\n            None => Ok(None),', 'message() swallows the error status'),
-        ('decode', 'tonic/src/codec/decode.rs', r'(pub async fn trailers[\s\S]*?)if let Some\(trailers\) = self\.inner\.trailers\.take\(\) \{', r'\1if let Some(trailers) = self.inner.trailers.clone() {', 'cached trailers handed out again and again'),
+        ('decode', 'tonic/src/codec/decode.rs', r'(pub async fn trailers[\s\S]*?)if let Some\(trailers\) = self\.inner\.trailers\.take\(\) \{', r'\1if let Some(trailers) = self.inner.trailers.replace(HeaderMap::new()) {', 'cached trailers handed out again and again'),
         ('clientglue', 'tonic/src/client/grpc.rs', r'self\.config\.send_compression_encodings,\s*self\.config\.max_encoding_message_size,', 'None,\n                    self.config.max_encoding_message_size,', 'request body built without the configured compression'),
         ('clientglue', 'tonic/src/client/grpc.rs', r'if status\.code\(\) != Code::Ok \{', 'if status.code() == Code::Ok {', 'trailers-only error status treated as success'),
         ('clientglue', 'tonic/src/client/grpc.rs', r'\.insert\(TE, HeaderValue::from_static\("trailers"\)\);', '.insert(TE, HeaderValue::from_static("trailer"));', 'te header misspelt'),
